@@ -242,25 +242,11 @@ def make_adjoint_contracts(cls):
             GDc = lambda r, j, d: GD.at(r, (j - 1) * D + d)
             lam = lambda k, d: [LAM.at(E.const(k) * b + r, d) for r in range(b)]
             # ---- a built spline (representation invariant established by update(): C01/C02)
-            S.requires(sizes_ok(S, cls), 'sizes')
-            for p in all_tp_ok(S, cls):
-                S.requires(p, 'time_powers')
-            for p in pd_ok(S):
-                S.requires(p, 'point_diffs')
-            S.requires(conj([x.R.eq(n + 1) for x in X[1:]]) & gC.R.eq(nc * n) & gT.R.eq(n), 'shapes')
-            S.requires(Lc.R.eq(ite(nb > 0, nb, Lc.R)) & Uc.R.eq(ite(nb > 0, nb, Uc.R)) & Dinv.R.eq(ite(nb > 0, nb, Dinv.R)), 'one_cached_block_per_interior_knot')
-            S.requires(implies(nb > 1, DTL.R >= nb - 1), 'one_product_block_per_interior_knot_but_last')
-
-            def factor_facts(k):
-                BS = BlockSpec(S, cls, k, DS[0])
-                k = E.const(k)
-                out = meq(Lm(k), BS.L) + meq(Um(k), BS.U)
-                Dt = msub(BS.D, mm(Lm(k), mm(Dm(k - 1), Um(k - 1))))
-                out += [implies(k.eq(0), x) for x in meq(mm(Dm(k), BS.D), ident(b))]
-                out += [implies(k > 0, x) for x in meq(mm(Dm(k), Dt), ident(b))]
-                out += [implies(k > 0, x) for x in meq(Tm(k - 1), tr_(mm(Lm(k), Dm(k - 1))))]
-                return out
-            S.requires(S.forall(0, nb, factor_facts), 'cached_blocks_factorise_the_optimality_system')
+            # ---- a built spline: exactly the representation invariant update() establishes (C01/C02: clause for clause, see the meta-check)
+            for lab, p in built_invariant(S, cls):
+                S.requires(p, 'built_' + lab)
+            S.requires(gC.R.eq(nc * n) & gT.R.eq(n), 'one_upstream_row_per_coefficient_and_duration')
+            factor_facts = lambda k: block_factor_facts(S, cls, k, DS[0])
             S.terms(0, 1, n, n - 1, n - 2, S.sk(0) - 1, S.sk(0) - 2, S.sk(0) + 1, S.sk(0) + 2)
             S.assigns(GP, GT, SG, EG, GD, LAM)
             # ---- shapes
@@ -649,48 +635,45 @@ def make_energy_grad_contracts(cls):
     cubic = cls == 'CubicSplineND'
 
     def built(S, A):
-        """a built spline: cached time powers, knot derivatives, and coefficients in first-principles Hermite form (C01/C02)"""
+        """a built spline: clause for clause what update() ensures (C01/C02) -- the representation invariant, the published facts
+        about the coefficients, and the published trajectory (for code that reads it instead of coeffs_)"""
         n = S.num_segments_
-        S.requires(sizes_ok(S, cls), 'sizes')
-        for p in all_tp_ok(S, cls):
-            S.requires(p, 'time_powers')
-        S.requires(conj([E.const(x.R).eq(n + 1) for x in A.X[1:]]) & A.C.R.eq(nc * n), 'shapes')
+        for lab, p in built_invariant(S, cls):
+            S.requires(p, 'built_' + lab)
+        pub = dict(published(S, cls))
+        need = ['one_coefficient_block_per_segment']
+        for d in dims(S):
+            need += ['interpolates_left_end_%d' % d, 'interpolates_right_end_%d' % d, 'continuous_derivative_1_%d' % d] if cubic else ['hermite_coefficients_%d' % d]
+        for lab in need:
+            S.requires(pub[lab], 'published_' + lab)
+        for label, p in published(S, cls):
+            if label.startswith('trajectory_') or label.startswith('knot_times') or label == 'segment_count':
+                S.requires(p, 'published_' + label)
         if cubic:
-            # what update() publishes for the cubic class (C01): interpolation and continuity of the slope; the Hermite form over the
-            # named knot slopes is derived from it (lemma below) and then available for every segment
-            hfun = lambda i: tp_field(S, i, 'h')
-            for d in dims(S):
-                S.requires(S.forall(0, n, lambda i, d=d: [A.C.at(i * nc, d).eq(A.P.at(i, d)), der(A.C, nc, i, 0, hfun(i), d).eq(A.P.at(i + 1, d))]), 'interpolates_both_ends_%d' % d)
-                S.requires(S.forall(1, n, lambda m, d=d: [der(A.C, nc, m, 1, 0, d).eq(der(A.C, nc, m - 1, 1, hfun(m - 1), d))]), 'continuous_slope_%d' % d)
+            # the Hermite form over the named knot slopes is derived from the published interpolation and slope-continuity facts
+            seg = S.v('time_segments_')
+            hseg = lambda i: seg.at(i)
             S.terms(S.sk(0) + 1, n - 1, n)
             if S.mode == 'verify':
                 def derive(G):
                     i = S.sk(0)
                     inr = (i >= 0) & (i < n)
                     V = A.X[1]
-                    hyps = [implies(inr, x) for x in tp_ok(S, i, cls)]
+                    hyps = [implies(inr, x) for x in tp_ok(S, i, cls)] + [implies(n >= 1, x) for x in tp_ok(S, n - 1, cls)]
                     concls = []
                     for d in dims(S):
-                        hyps += [implies(inr, A.C.at(i * nc, d).eq(A.P.at(i, d))), implies(inr, der(A.C, nc, i, 0, hfun(i), d).eq(A.P.at(i + 1, d))),
+                        hyps += [implies(inr, A.C.at(i * nc, d).eq(A.P.at(i, d))), implies(inr, der(A.C, nc, i, 0, hseg(i), d).eq(A.P.at(i + 1, d))),
                                  implies(inr, V.at(i, d).eq(A.C.at(i * nc + 1, d))),
-                                 implies(inr & (i + 1 < n), V.at(i + 1, d).eq(A.C.at((i + 1) * nc + 1, d)) & der(A.C, nc, i + 1, 1, 0, d).eq(der(A.C, nc, i, 1, hfun(i), d))),
-                                 implies(inr & (i + 1).eq(n), V.at(i + 1, d).eq(der(A.C, nc, i, 1, hfun(i), d)))]
+                                 implies(inr & (i + 1 < n), V.at(i + 1, d).eq(A.C.at((i + 1) * nc + 1, d)) & der(A.C, nc, i + 1, 1, 0, d).eq(der(A.C, nc, i, 1, hseg(i), d))),
+                                 implies(inr & (i + 1).eq(n), V.at(i + 1, d).eq(der(A.C, nc, i, 1, tp_field(S, i, 'h'), d)))]
                         concls += [implies(inr, x) for x in herm(S, A, i, d)]
                     G.abstract_lemma('hermite_form_from_interpolation_and_slopes', hyps, concls)
                     for d in dims(S):
                         q = S.forall(0, n, lambda k, d=d: herm(S, A, k, d))
                         G.assume_fact(q, 'generalisation of the lemma over its arbitrary segment index')
-                        # the fact is over state this (const) function never assigns: it stays valid, and is instantiated at loop terms too
                         if not any(lab == 'derived_hermite_form_%d' % d for lab, _ in G.gen.stable_quants):
                             G.gen.stable_quants.append(('derived_hermite_form_%d' % d, q))
                 S.ghost('entry', derive)
-            return
-        for d in dims(S):
-            S.requires(S.forall(0, n, lambda i, d=d: herm(S, A, i, d)), 'hermite_coefficients_%d' % d)
-        # the published trajectory is (knot times, coefficients) of this spline (C01), for code that reads it instead of coeffs_
-        for label, p in published(S, cls):
-            if label.startswith('trajectory_') or label.startswith('knot_times') or label == 'segment_count':
-                S.requires(p, 'published_' + label)
 
     def herm(S, A, i, d):
         hc = hermite_coeffs(s, iv_pow_of(S, i), [A.X[k].at(i, d) for k in range(s)], [A.X[k].at(E.const(i) + 1, d) for k in range(s)])
@@ -735,10 +718,12 @@ def make_energy_grad_contracts(cls):
                 S.ensures(S.forall(1, n, lambda j, d=d: [G.at(j - 1, d).eq(want(j, d))]), 'inner_point_gradient_is_pullback_of_coefficient_partials_%d' % d)
             # the right-hand side of the adjoint system vanishes (so that zero multipliers solve it): consequence of the
             # continuity of the derivatives of order s..2s-2 at interior knots
-            hfun = lambda i: tp_field(S, i, 'h')
+            seg_ = S.v('time_segments_')
+            hfun = lambda i: seg_.at(i)
+            pub = dict(published(S, cls))
             for d in DS:
                 for k in range(s, 2 * s - 1):
-                    S.requires(S.forall(1, n, lambda m, k=k, d=d: der(A.C, nc, m, k, 0, d).eq(der(A.C, nc, m - 1, k, hfun(m - 1), d))), 'continuous_derivative_%d_%d' % (k, d))
+                    S.requires(pub['continuous_derivative_%d_%d' % (k, d)], 'published_continuous_derivative_%d_%d' % (k, d))
                 S.ensures(S.forall(1, n, lambda m, d=d: [A.GX(m, j, d).eq(0) for j in range(1, s)], inst=[S.sk(0), S.sk(0) - 1]), 'adjoint_right_hand_side_vanishes_%d' % d)
             S.terms(0, 1, n, n - 1, S.sk(0) - 1, S.sk(0) + 1)
             if S.mode != 'verify':
@@ -921,15 +906,9 @@ class CubicPropagateGradInternal(Contract):
         cp, inv = S.v('cached_c_prime_'), S.v('cached_inv_denoms_')
         A = CubicAdjoint(S, gC)
         cls = 'CubicSplineND'
-        S.requires(sizes_ok(S, cls), 'sizes')
-        for p in all_tp_ok(S, cls):
-            S.requires(p, 'time_powers')
-        for p in pd_ok(S):
-            S.requires(p, 'point_diffs')
-        S.requires(M.R.eq(n + 1) & gC.R.eq(4 * n) & gT.R.eq(n) & cp.R.eq(n) & inv.R.eq(n + 1), 'shapes')
-        S.requires(cubic_factor_first(S), 'cached_factor_first')
-        S.requires(S.forall(1, n, lambda k: cubic_factor_mid(S, k)), 'cached_factors')
-        S.requires(cubic_factor_last(S, n), 'cached_factor_last')
+        for lab, p in built_invariant(S, cls):
+            S.requires(p, 'built_' + lab)
+        S.requires(gC.R.eq(4 * n) & gT.R.eq(n), 'one_upstream_row_per_coefficient_and_duration')
         S.terms(0, 1, n, n - 1, S.sk(0) - 1, S.sk(0) + 1)
         S.assigns(GP, GT, SG, EG, LAM)
         mu = lambda k, d: 6 * LAM.at(k, d)
